@@ -66,10 +66,20 @@ def run(tier):
     if tier == "thorough":
         plan += [(o, "asm-san") for o in OBS_THOROUGH] + [(o, c) for o in OBS + OBS_THOROUGH[:4] for c in ("p64-san", "p32-san")]
     gen_cache = {}
+    if tier == "quick":
+        # a slice of the scalar-multiplication cases (every routine and width, scalars 0, 1 and the all-ones value): empty and full digit buffers
+        plan.append((("drv_curve", "Gen_Curve", {"WHAT": "scalars", "TIER": "quick", "_slice": "edge-scalars"}), "asm-san"))
     for (drv, gen, env), cfg in plan:
         k = (gen, json.dumps(env, sort_keys=True))
         if k not in gen_cache:
-            gen_cache[k] = run.generate(gen, "san%d" % len(gen_cache), env=env, timeout=1500)
+            genv = {a: b for a, b in env.items() if not a.startswith("_")}
+            gen_cache[k] = run.generate(gen, "san%d" % len(gen_cache), env=genv, timeout=1500)
+            if env.get("_slice") == "edge-scalars":
+                def edge(e):
+                    kk = e.get("k")
+                    return e.get("op") in ("mul.gen", "mul.fast", "wnaf.recode") and isinstance(kk, list) and (not any(kk) or kk == [1] + [0] * (len(kk) - 1) or all(x == 255 for x in kk))
+                rows = [e for e in vlib.read_ndjson(gen_cache[k]) if edge(e)]
+                sl = gen_cache[k] + ".slice"; vlib.write_ndjson(sl, rows); gen_cache[k] = sl
         observe(run, drv, cfg, gen_cache[k], reports); nobs += 1
         run.classes.add(("sanitizer-run", drv, cfg, json.dumps(env, sort_keys=True)))
     run.extra["sanitizer_runs"] = nobs
